@@ -198,3 +198,15 @@ func (cs *ContractSet) loadFile(path string) error {
 	}
 	return sc.Err()
 }
+
+// get returns the contract of a function; a contract written for a generic
+// function applies to each of its instances.
+func (cs *ContractSet) get(key string) *Contract {
+	if c, ok := cs.ByFunc[key]; ok {
+		return c
+	}
+	if i := strings.Index(key, "["); i > 0 {
+		return cs.ByFunc[key[:i]]
+	}
+	return nil
+}
